@@ -136,6 +136,9 @@ func (e *Exec) callStatic(fr *Frame, st *BState, x *ssa.Call, f *ssa.Function, a
 	if ext, ok := externs[full]; ok {
 		return ext(e, st, x, args)
 	}
+	if ct := e.contractOf(f); ct != nil && !ct.Flags["inline"] && e.expanding != f {
+		return e.callByContract(fr, st, x, f, ct, args)
+	}
 	if uf, ok := recursiveUF[f]; ok && recursive(fr, f) {
 		// recursive call: the function's own spec function (induction hypothesis is supplied by the lemma)
 		return e.applyUF(uf, args, x.Type())
@@ -447,4 +450,60 @@ func (e *Exec) sprintfTerm(fr *Frame, st *BState, x *ssa.Call, args []SV) (*Term
 		name += "." + sanitize(s)
 	}
 	return ufun(name, sorts, SStr, ts...), errs
+}
+
+// callByContract is the modular call rule: the caller proves the callee's requires, the callee's frame is havoc'd,
+// and the callee's ensures (and definitional clauses) are assumed for fresh results.
+func (e *Exec) callByContract(fr *Frame, st *BState, x *ssa.Call, f *ssa.Function, ct *FuncContract, args []SV) SV {
+	cf := &Frame{fn: f, regs: map[ssa.Value]SV{}, contractOnly: true}
+	for i, p := range f.Params {
+		cf.regs[p] = args[i]
+	}
+	label := selectorOf(f)
+	env := &SpecEnv{e: e, fr: cf, st: st, bound: map[string]SV{}, cs: e.cs, pkg: ct.Pkg}
+	for i, r := range ct.Requires {
+		e.obligeNamed(st, fmt.Sprintf("call.%s.%s", label, clauseLabel(r, "requires", i)), x.Pos(), scal(env.evalGoal(r.Expr)))
+	}
+	pre := st.clone()
+	if !ct.Flags["pure"] && funcMayWrite(f, map[*ssa.Function]bool{}) {
+		for k, h := range st.heap {
+			if strings.HasPrefix(k, "G|") {
+				continue
+			}
+			st.heap[k] = e.fresh("call."+f.Name()+"."+k, h.Sort)
+		}
+		epochCounter++
+		st.hepoch[""] = epochCounter
+		old := e.frontier(st)
+		nf := e.fresh("call.frontier", SInt)
+		e.assume(le(old, nf))
+		st.ghost["$frontier"] = intSV(nf)
+		e.note("call by contract of " + label + " havocs the heap (no modifies clause)")
+	}
+	var res SV
+	var results []SV
+	if tup, ok := x.Type().(*types.Tuple); ok {
+		tv := &TupleV{}
+		for i := 0; i < tup.Len(); i++ {
+			r := e.freshSV(tup.At(i).Type(), "ret."+f.Name(), st.reach, false)
+			e.saneInput(st, tup.At(i).Type(), r, st.reach)
+			tv.Elems = append(tv.Elems, r)
+		}
+		res, results = tv, tv.Elems
+	} else {
+		r := e.freshSV(x.Type(), "ret."+f.Name(), st.reach, false)
+		e.saneInput(st, x.Type(), r, st.reach)
+		res, results = r, []SV{r}
+	}
+	post := &SpecEnv{e: e, fr: cf, st: st, bound: map[string]SV{}, cs: e.cs, pkg: ct.Pkg, oldSt: pre, oldFr: cf}
+	for k, v := range results {
+		post.bound[fmt.Sprintf("result%d", k)] = v
+	}
+	if len(results) > 0 {
+		post.bound["result"] = results[0]
+	}
+	for _, en := range append(append([]Clause{}, ct.Ensures...), ct.Defines...) {
+		e.assume(implies(st.reach, scal(post.eval(en.Expr))))
+	}
+	return res
 }
